@@ -35,7 +35,7 @@ def run(res, ctx):
     known_ids = {k["id"] for k in known}
     known_hit = collections.Counter()
     n = 300 if tier == "quick" else 4000
-    cases_a, cases_b, meta = [], [], []
+    cases_a, cases_b, cases_c, meta = [], [], [], []
     for _ in range(n):
         k = rng.random()
         afs = None
@@ -68,10 +68,12 @@ def run(res, ctx):
         b = {"rows": b_rows, "inits": dict(other)}
         cases_a.append(a)
         cases_b.append(b)
-        meta.append((target, nsh[1] > 0, afs is not None))
+        cases_c.append({"rows": c["rows"], "inits": {}})      # no opening position at all
+        meta.append((target, nsh[1] > 0, afs is not None, sorted(other)))
     ra = corecheck.run_cases(ctx, cases_a)
     rb = corecheck.run_cases(ctx, cases_b)
-    for x, y, (target, has_open, no_default) in zip(ra, rb, meta):
+    rc = corecheck.run_cases(ctx, cases_c)
+    for x, y, z, (target, has_open, no_default, others) in zip(ra, rb, rc, meta):
         st["evaluations"] += 1
         for r in (x, y):
             d = core.diff_exact(r["dec"], r["impl"])
@@ -109,10 +111,21 @@ def run(res, ctx):
             else:
                 res.violation("failing-input", "security %s: %s" % (target, d),
                               {"input_with_symbol_base": x["hc"], "input_with_purchase": y["hc"], "security": target})
-        # other securities: figures unchanged by the opening positions
-        for sname, num in x["st"].items():
-            if sname == target or num not in ia["secs"]:
-                continue
+        # other securities: opening positions of OTHER securities have no effect on a security
+        iz = z["impl"]
+        if iz["status"] == "ok":
+            st["other-positions-compared"] += 1
+            for sname, num in x["st"].items():
+                if sname == target or sname in others or num not in ia["secs"] or sname not in z["st"]:
+                    continue
+                sz = iz["secs"].get(z["st"][sname])
+                sx = ia["secs"][num]
+                if sz is None:
+                    continue
+                dd = ("outcome %s vs %s" % (sx["stop"], sz["stop"])) if sx["stop"][:2] != sz["stop"][:2] else rows_equal(sx["deltas"], sz["deltas"])
+                if dd is not None:
+                    res.violation("failing-input", "security %s changes when opening positions of other securities (%s) are given: %s" % (sname, ", ".join([target] + others), dd),
+                                  {"input_with_other_positions": x["hc"], "input_without": z["hc"], "security": sname})
         if nontriv and x["hash"] not in seen:
             seen.add(x["hash"])
             st["distinct_nontrivial"] += 1
